@@ -848,13 +848,15 @@ impl<T: ItemT> TableRunner<T> {
             ("drain", 2) => {
                 let mut out = QuietVec(Vec::new());
                 {
+                    let total = m.len();
                     let mut d = m.drain();
                     for _ in 0..n(0) {
-                        match d.next() {
+                        match crate::exec::next_exact(&mut d, total - out.0.len()) {
                             Some(x) => out.0.push(x),
                             None => break,
                         }
                     }
+                    crate::exec::check_exact(&d, total - out.0.len());
                     if n(1) == 1 {
                         std::mem::forget(d);
                     }
@@ -866,13 +868,15 @@ impl<T: ItemT> TableRunner<T> {
                 let old = std::mem::replace(m, new_table());
                 let mut out = QuietVec(Vec::new());
                 {
+                    let total = old.len();
                     let mut it = old.into_iter();
                     for _ in 0..n(0) {
-                        match it.next() {
+                        match crate::exec::next_exact(&mut it, total - out.0.len()) {
                             Some(x) => out.0.push(x),
                             None => break,
                         }
                     }
+                    crate::exec::check_exact(&it, total - out.0.len());
                 }
                 quiet();
                 fmt_items(&out.0)
@@ -953,6 +957,7 @@ impl<T: ItemT> Runner for TableRunner<T> {
         };
         quiet();
         let mut ret = ret;
+        let own_flags = crate::exec::own_flags_take();
         let evs = tape::peek_events();
         if let Some(why) = self.ledger_step(name, args, &evs) {
             ret.push_str(&format!(" ORACLE-LEDGER({})", why.replace(' ', "_")));
@@ -982,6 +987,7 @@ impl<T: ItemT> Runner for TableRunner<T> {
             self.rb = contents(self.get("b"));
         }
         let st = state_of(self.get(tgt));
+        ret.push_str(&own_flags);
         format!("{} ; {} ; {} ; {}", ret, st, tape::take_events(), tape::counters())
     }
     fn dump(&self, tgt: &str) -> Dump {
